@@ -497,9 +497,22 @@ def d3_maps(prog, rep):
             gs = [canon_guard(cn, vv) for cn, vv in f.guards().get(bb, [])]
             okg = any(g[0] == 'cmp' and g[1] == 'Lt' and g[2] == col and g[3] == ('field', me, 2, 'usize') and g[4] for g in gs)
             ok = okv and okr and okg
-            (rep.ok if ok else rep.viol)('map-signature', key, 'v[i] = self[i][col] for i in 0..nrows, col < ncols asserted' if ok else
-                                         'column extraction does not copy self[i][col] for every row under a bounds assert (element %s, rows %s, bound asserted: %s)' % (
-                                             show(v)[:40], 'ok' if okr else 'not 0..nrows', okg), site_of(f.body))
+            # refutations need the read forms: an element self[a][b] with the wrong a / b; a row range that is 0..ncols or starts at a non-zero
+            # literal; no test mentioning `col` dominating the copy in a body that calls no helper of the crate
+            Cf = ('field', me, 2, 'usize')
+            defv = not okv and tag(v) == 'index' and tag(v[1]) == 'call' and short(v[1][1]) == 'index' and len(v[1][2]) == 2 and v[1][2][0] == me \
+                and v[2] in (col, i) and v[1][2][1] in (col, i)
+            defr = not okr and (peq(hi, poly(Cf)) or (pconst(lo) not in (None, 0)))
+            helpers = [c for c in f.calls() if c.path and c.path in prog.pdb.bodies and '{closure#' not in c.path and short(c.path) not in ('index', 'index_mut')]
+            defg = not okg and not helpers and not any(col in set(subterms(cn)) for cn, vv in f.guards().get(bb, []))
+            if ok:
+                rep.ok('map-signature', key, 'v[i] = self[i][col] for i in 0..nrows, col < ncols asserted')
+            elif defv or defr or defg:
+                rep.viol('map-signature', key, 'column extraction does not copy self[i][col] for every row under a bounds assert (element %s, rows %s, bound asserted: %s)' % (
+                    show(v)[:40], 'ok' if okr else 'not 0..nrows', okg), site_of(f.body))
+            else:
+                rep.undecided('map-signature', key, 'column copy not in the read form (element %s, rows %s, bound asserted: %s): not read' % (
+                    show(v)[:40], 'ok' if okr else 'not 0..nrows', okg), site_of(f.body), proof=False)
     # ---- Matrix::diag: min(nrows, ncols) entries data[i*ncols + i]
     f = prog.func(M + '::diag')
     key = 'map-signature:%s::diag' % M
@@ -527,8 +540,20 @@ def d3_maps(prog, rep):
                 oki = strip_casts(v[1]) == data and peq(poly(v[2]), padd(pmul(poly(i), poly(C)), poly(i)))
                 ok = okr and oki
                 why = 'range %s, element %s' % (show(rng)[:40], show(v)[:60])
-            (rep.ok if ok else rep.viol)('map-signature', key, 'diag pushes data[i*ncols + i] for i in 0..min(nrows, ncols)' if ok else
-                                         'diag does not enumerate data[i*ncols + i] over 0..min(nrows, ncols) (%s)' % why, site_of(f.body))
+            # refuted in the read form only: a counting loop whose bound is one of the two dimensions alone (or whose start is a non-zero literal),
+            # or a pushed element data[p(i)] with p a polynomial in i and ncols / nrows other than i*ncols + i
+            definite = False
+            if len(loops) == 1 and not ok:
+                if tag(rng) == 'range' and ((tag(rng[1]) == 'const' and rng[1][2] != 0) or strip_casts(rng[2]) in (R, C)):
+                    definite = True
+                if strip_casts(v[1]) == data and okr and set(atoms(poly(v[2]))) <= {i, R, C}:
+                    definite = True
+            if ok:
+                rep.ok('map-signature', key, 'diag pushes data[i*ncols + i] for i in 0..min(nrows, ncols)')
+            elif definite:
+                rep.viol('map-signature', key, 'diag does not enumerate data[i*ncols + i] over 0..min(nrows, ncols) (%s)' % why, site_of(f.body))
+            else:
+                rep.undecided('map-signature', key, 'diag: the push loop is not in the read form (%s): not read' % why, site_of(f.body), proof=False)
         elif len(steps) == 1:
             st = steps[0]
             stride_ok = peq(poly(st.args[1]), padd(poly(C), {(): 1}))
@@ -1288,7 +1313,14 @@ def d7_predicates(prog, rep):
         rep.touch(k)
         calls = [c for c in f.calls() if c.path == 'linalg::array::vec::Vector::close_to']
         ok = len(calls) == 1 and any(tag(cn) == 'call' and 'PartialEq' in cn[1] for cn, v in f.guards().get(calls[0].bb, []))
-        (rep.ok if ok else rep.viol)('predicate', key, 'shape equality then element comparison' if ok else 'Matrix::close_to does not compare shapes before delegating', site_of(f.body))
+        if ok:
+            rep.ok('predicate', key, 'shape equality then element comparison')
+        elif len(calls) == 1 and not f.guards().get(calls[0].bb, []) and not any(c.path and c.path in prog.pdb.bodies and c.path != calls[0].path for c in f.calls()):
+            # refuted only when the delegation is unconditional: no test of any kind dominates it and no helper could hold one
+            rep.viol('predicate', key, 'Matrix::close_to does not compare shapes before delegating', site_of(f.body))
+        else:
+            rep.undecided('predicate', key, 'Matrix::close_to: the shape test before the element comparison is not in the read form (%d delegating calls)' % len(calls),
+                          site_of(f.body), proof=False)
     # exact PartialEq for Vector: |a-b| > EPSILON on the signed difference
     # is_design: every row starts with 1.  Whatever the idiom, a failing row anywhere must make the answer false: a flag that is simply
     # overwritten in every iteration reports the last row only
